@@ -196,6 +196,21 @@ func (r *Runner) CreateScope(parent int, ctxKind int) (*ScopeRec, *Obs) {
 		}
 		ctx, rec.Cancel = context.WithCancel(base)
 	}
+	if ctxKind == 7 {
+		// a context that already leads to another open scope of this provider (derived from that
+		// scope's context - a request scope's, say), with a value and a cancel of its own on top
+		base := context.Background()
+		r.mu.Lock()
+		for t := r.next - 1; t > 0; t-- {
+			if o := r.Scopes[t]; o != nil && o.Created && o.S != nil && t != tag && o.CloseBeg == 0 {
+				base = o.S.Context()
+				break
+			}
+		}
+		r.mu.Unlock()
+		rec.CtxKey, rec.CtxVal = ctxKeyT{tag}, fmt.Sprintf("val-%d", tag)
+		ctx, rec.Cancel = context.WithCancel(context.WithValue(base, rec.CtxKey, rec.CtxVal))
+	}
 	if ctxKind >= 10 { // gate context: Done() is a pre-emption point
 		base, cancel := context.WithCancel(context.Background())
 		rec.Cancel = cancel
